@@ -861,7 +861,7 @@ bool apply_corruption(Bytes &img, const Json &op, std::string &note) {
 		int ci = find_card(h, "NAXIS1");
 		if (ci < 0) { note = "no NAXIS1"; return false; }
 		// an earlier card edit may have made the header promise more data than the image holds
-		if (h.data_off + 8 * (uint64_t)h.naxis[0] > img.size() || h.next_off > img.size()) { note = "data unit not inside the image"; return false; }
+		if (h.data_off > img.size() || (uint64_t)h.naxis[0] > (img.size() - h.data_off) / 8 || h.next_off > img.size()) { note = "data unit not inside the image"; return false; }
 		std::vector<double> v((size_t)h.naxis[0]);
 		for (size_t i = 0; i < v.size(); i++) {
 			uint64_t u = 0;
@@ -887,7 +887,8 @@ bool apply_corruption(Bytes &img, const Json &op, std::string &note) {
 		std::string name = "KNOTS" + std::to_string(op.geti("dim"));
 		const Hdu *h = nullptr;
 		for (size_t i = 1; i < hdus.size(); i++) if (hdus[i].extname == name) { h = &hdus[i]; break; }
-		if (!h || h->bitpix != -64 || h->naxis.size() != 1 || h->naxis[0] < 1 || h->data_off + (size_t)h->naxis[0] * 8 > img.size()) { note = "no usable " + name; return false; }
+		// (overflow-safe: NAXIS1 may have been edited to 2^62)
+		if (!h || h->bitpix != -64 || h->naxis.size() != 1 || h->naxis[0] < 1 || h->data_off > img.size() || (uint64_t)h->naxis[0] > (img.size() - h->data_off) / 8) { note = "no usable " + name; return false; }
 		size_t n = (size_t)h->naxis[0];
 		uint8_t *p = img.data() + h->data_off;
 		if (c == "knot_set") {
